@@ -33,6 +33,9 @@ pub fn judge_case(c: &Case) -> Obs {
             return obs;
         }
     };
+    if let Some(l) = proggen::fit_label(&c.spec) {
+        obs.label(l);
+    }
     let rr = refvm::run(Vm::load(p.orig, &p.img.words, p.built.stack), &[], BUDGET, Some(0xFFFD));
     match &rr.stop {
         RunStop::OutOfFuel => {
@@ -94,7 +97,7 @@ pub fn judge_case(c: &Case) -> Obs {
 }
 
 fn cases() -> impl Strategy<Value = Case> {
-    let ending = prop_oneof![3 => Just(Ending::JmpFfff), 2 => Just(Ending::BelowOrigin), 2 => Just(Ending::AboveUser), 2 => Just(Ending::Halt), 1 => Just(Ending::HaltMiddle), 1 => Just(Ending::RunOff), 1 => Just(Ending::UnknownTrap)];
+    let ending = crate::pick![3 => Just(Ending::JmpFfff), 2 => Just(Ending::BelowOrigin), 2 => Just(Ending::AboveUser), 2 => Just(Ending::Halt), 1 => Just(Ending::HaltMiddle), 1 => Just(Ending::RunOff), 1 => Just(Ending::UnknownTrap)];
     let mixed = prop::collection::vec(raw_cmd(), 0..12);
     // step-heavy scripts walk through the program, so that `step` lands on every call
     let steppy = prop::collection::vec(
@@ -104,8 +107,8 @@ fn cases() -> impl Strategy<Value = Case> {
         }),
         4..40,
     );
-    let spec = prop_oneof![5 => proggen::prog_spec(12).boxed(), 1 => proggen::raw_image_spec(super::c03::image_words()).boxed()];
-    (spec, ending, prop_oneof![3 => mixed, 2 => steppy], 0u8..3).prop_map(|(mut spec, ending, cmds, end)| {
+    let spec = crate::pick![5 => proggen::prog_spec(12).boxed(), 1 => proggen::raw_image_spec(super::c03::image_words()).boxed()];
+    (spec, ending, crate::pick![3 => mixed, 2 => steppy], 0u8..3).prop_map(|(mut spec, ending, cmds, end)| {
         spec.ending = ending;
         Case { spec, cmds, end }
     })
@@ -129,6 +132,9 @@ impl Prop for C16 {
     fn run_worker(&self, ctx: &Ctx, rep: &mut Report) {
         let n = ctx.share(ctx.tier.pick(30_000, 300_000));
         drive(ctx, rep, "sessions", cases(), n, &mut |c: &Case| judge_case(c));
+    }
+    fn fuzz_strategy(&self) -> Option<BoxedStrategy<Value>> {
+        Some(crate::fuzzmode::jv(cases()))
     }
     fn replay(&self, _ctx: &Ctx, case: &Value) -> Obs {
         match serde_json::from_value::<Case>(case.clone()) {
